@@ -15867,7 +15867,7 @@ R_<TG_, TA_>::initialEnter() noexcept {
 			_core.requests.clear();
 		}
 	}
-	HFSM2_ASSERT(_core.requests.count() == 0);
+	// requests issued in the last permitted round stay queued for the next step
 	HFSM2_IF_TRANSITION_HISTORY(_core.previousTransitions = currentTransitions);
 
 	_apex.deepEnter(control);
@@ -15977,7 +15977,7 @@ R_<TG_, TA_>::processTransitions(TransitionSets& currentTransitions) noexcept {
 			_core.requests.clear();
 		}
 	}
-	HFSM2_ASSERT(_core.requests.count() == 0);
+	// requests issued in the last permitted round stay queued for the next step
 
 	if (currentTransitions.count())
 		_apex.deepChangeToRequested(control);
